@@ -211,6 +211,11 @@ class SkelExtractor:
             return self.try_(body, orelse, handlers, finalbody, s.lineno, k)
         if isinstance(s, ast.With):
             if any(self.is_mutex(i.context_expr) for i in s.items):
+                inner = s.body[0] if len(s.body) == 1 and isinstance(s.body[0], ast.Try) else None
+                if inner is not None and inner.handlers and not inner.finalbody and not inner.orelse:
+                    # with <mutex>: try: B except ..: H   ==   try: acquire; B  except ..: H  finally: release
+                    # (the handler runs with the lock held in both; the lock is released on every way out)
+                    return self.try_(['acquire'] + inner.body, [], inner.handlers, 'release', s.lineno, k)
                 self.emit('acquire', marker=('lock', 'acquire'))
                 return self.try_(s.body, [], [], 'release', s.lineno, k)
             return self.block(s.body, k)
